@@ -342,7 +342,8 @@ Sinks == {p \in Procs : Kind[p] = "Sink"}
 N == lens[1]
 
 \* C04: a value delivered at index k (0-based) depends on no input position beyond k + W (+ lag).
-NoLookAhead == \A s \in Sinks : \A k \in 1..Len(out[s]) : out[s][k].hi <= (k - 1) + W + Off[s]
+\* (a constant - hi = -1, e.g. a Shift fill - is never a look-ahead, whatever the documented lag)
+NoLookAhead == \A s \in Sinks : \A k \in 1..Len(out[s]) : out[s][k].hi <= Max(-1, (k - 1) + W + Off[s])
 
 \* C02 (evaluated in terminal states)
 CountOK  == \A s \in Sinks : Len(out[s]) = Max(0, N - W)
